@@ -12,7 +12,6 @@ import (
 	"encoding/hex"
 	"fmt"
 	"io"
-	"net"
 	"os"
 	"sort"
 	"strconv"
@@ -279,36 +278,9 @@ func NewWorld(e *core.Env, ncfg simnet.Cfg, faults []simnet.Fault, cfg *ServerCf
 		w.register(cfg.Services[i])
 	}
 	w.serveDone = make(chan struct{}, 1)
-	lis := &guardListener{Listener: w.net.Listen("srv0")}
+	lis := w.net.Listen("srv0")
 	go func() { w.srv.Serve(lis); w.serveDone <- struct{}{} }()
 	return w
-}
-
-// guardListener hands out connections whose Close is idempotent without a
-// scheduling point between the check and the mark: simnet.Conn.Close is not
-// safe against two concurrent callers (http2Server.Close and loopy's delayed
-// conn.Close can race) and would close its internal channel twice.
-type guardListener struct{ net.Listener }
-
-func (l *guardListener) Accept() (net.Conn, error) {
-	c, err := l.Listener.Accept()
-	if err != nil {
-		return nil, err
-	}
-	return &guardConn{Conn: c}, nil
-}
-
-type guardConn struct {
-	net.Conn
-	closed bool
-}
-
-func (g *guardConn) Close() error {
-	if g.closed {
-		return nil
-	}
-	g.closed = true
-	return g.Conn.Close()
 }
 
 // register builds a real grpc.ServiceDesc for a described service.
